@@ -199,7 +199,9 @@ def handleFront (id : String) (xs : List Sx) : String :=
   let content : Sec.Bytes := match Sx.field xs "hex" with
     | [h] => unhex h.asStr.toList
     | _ => []
-  let (chs, serrs) := Sec.split content
+  let uni : Sec.Uni := { letter := fun cp => ((Sx.field xs "uniletters").map Sx.asNat).contains cp,
+                         digit := fun cp => ((Sx.field xs "unidigits").map Sx.asNat).contains cp }
+  let (chs, serrs) := Sec.split uni content
   let lineStr := fun (l : Sec.Line) => s!" ({lcStr content (some l.off)} {q (bytesStr l.text)})"
   let chStr := fun (c : Sec.Change) =>
     s!" (ch (hdr {lcStr content c.headerOff}) {q (bytesStr c.name)} (meta{String.join (c.metaL.map lineStr)}) (at {lcStr content c.atOff}) (patch{String.join (c.patch.map lineStr)}) (comments{String.join (c.comments.map (fun b => " " ++ q (bytesStr b)))}))"
